@@ -977,6 +977,16 @@ impl QuicSocket {
         let _ = self.flush_pending_data();
     }
 
+    /// Abruptly terminate the sending part of the stream (RESET_STREAM): unsent data is dropped
+    pub fn reset_stream(&self, stream_id: u64, error_code: u64) {
+        let _ = self.quic_conn.lock().unwrap().stream_shutdown(
+            stream_id,
+            quiche::Shutdown::Write,
+            error_code,
+        );
+        let _ = self.flush_pending_data();
+    }
+
     pub fn graceful_shutdown(&self) -> io::Result<()> {
         {
             let mut quic_conn = self.quic_conn.lock().unwrap();
